@@ -146,6 +146,7 @@ def property_obligations(pid: str, extra_files: List[str] = ()) -> dict:
 
 
 EDITED_RESULTS_PROPS = ("C02", "C03", "C04", "C05", "C13", "C14", "C17", "C19")
+OTHER_USES_PROPS = ("C01", "C02", "C03", "C04", "C05", "C06", "C13", "C14", "C17", "C18", "C19")
 
 
 def purge_stale_cases() -> None:
@@ -252,6 +253,19 @@ def main(argv: List[str]) -> int:
             import traceback
             violations.append({"kind": "correspondence", "signature": None,
                                "what": f"the edited-results histories of {pid} could not run on this tree: {type(e).__name__}: {e}",
+                               "log": traceback.format_exc()[-1500:]})
+    # histories in which the validator is also put to its other uses (described, printed, compared, errors rendered)
+    if pid in OTHER_USES_PROPS and "coverage" in rep:
+        try:
+            from .props.hist import other_uses_violation
+            ov, n_ov = other_uses_violation(pid)
+            rep["coverage"]["histories_with_other_uses"] = n_ov
+            if ov:
+                violations.append(ov)
+        except Exception as e:  # noqa
+            import traceback
+            violations.append({"kind": "correspondence", "signature": None,
+                               "what": f"the other-uses histories of {pid} could not run on this tree: {type(e).__name__}: {e}",
                                "log": traceback.format_exc()[-1500:]})
     known = load_known()
     known_here = [k for k in known.get("findings", []) if k["property"] == pid]
